@@ -99,9 +99,9 @@ type c07case struct {
 	Chain    *c07chain  `json:"chain,omitempty"` // a real-chain scenario (chain.go) instead of a synthetic registry
 	LiveSame bool       `json:"live_same,omitempty"`
 	Live     []c07ident `json:"live,omitempty"`
-	Seed   int64      `json:"seed"`
-	Height uint64     `json:"height"`
-	Ops    []c07op    `json:"ops"`
+	Seed     int64      `json:"seed"`
+	Height   uint64     `json:"height"`
+	Ops      []c07op    `json:"ops"`
 }
 
 // hash indexes (token h<k>)
@@ -460,7 +460,9 @@ func c07refSorted(recs []c07rec) (sorted []common.Address, online int) {
 	for a := range set {
 		sorted = append(sorted, a)
 	}
-	sort.Slice(sorted, func(i, j int) bool { return new(big.Int).SetBytes(sorted[i][:]).Cmp(new(big.Int).SetBytes(sorted[j][:])) > 0 })
+	sort.Slice(sorted, func(i, j int) bool {
+		return new(big.Int).SetBytes(sorted[i][:]).Cmp(new(big.Int).SetBytes(sorted[j][:])) > 0
+	})
 	return
 }
 
@@ -1772,7 +1774,7 @@ func init() {
 			return nil
 		}
 		thorough := c.Tier == "thorough"
-		c.Rep.Rule = "registries (0..400 identities: god-only, <=8 switch table, pools with owners inside/outside the registry, discrimination none/some/heavy/all) on a real identity tree + ValidatorsCache passed as the `validatorsCache` ARGUMENT, while the chain object's own live appState cache is the same set (25%), a fresh node's (25%) or a set of another size from every threshold class (50%); per registry: committee draws (steps 1..149, 253-255, explicit limits incl. n-1, n, n+1), certificates built from real secp256k1 signatures with exactly need-1 / need / need+1 distinct eligible voters plus operators (duplicates, same voter other flags, outsiders, non-eligible members, other round/step/parent/hash signed, flag mismatch, 5 byte-level forgeries, certificate-level other round/hash/step, other parent/block context, both sync paths), vote sets through the real AddVote + countVotes (equivocation, stale/future rounds, late votes; dedicated cases with discriminated/pooled committee members whose need-1 / need / need+1 eligible votes arrive over up to three 500 ms polling passes of the real loop) whose certificates go back through ValidateBlockCert; 1 case in 40: registry of <= 7 identities with EVERY subset of (eligible voters + a non-eligible member + an outsider) as a certificate; plus real-chain routes (chain.go): two/three real replicas over histories with status switches, delegations, kills and a validation ceremony end (resp. god-only mode with god hand-overs); before every block the live (incrementally updated) validators cache of the proposing node is compared with a reloaded cache, the reference committee and the model, exact-quorum / quorum-1 certificates by real keys go through ValidateBlockCert, and windows of 2-5 blocks go through the real ValidateSubChain of a lagging replica with genuine certificates (must pass) and with the certificate of an IdentityUpdate block replaced by one of the validator set AFTER that block / an under-quorum one / none (must be refused); plus the table of the real committee-size / threshold / subtrahend functions over cnt <= N for the four consensus versions; distinct = distinct (registry, op); non-trivial = certificate with at least one signature or required <= 0"
+		c.Rep.Rule = "registries (0..400 identities: god-only, <=8 switch table, pools with owners inside/outside the registry, discrimination none/some/heavy/all) on a real identity tree + ValidatorsCache passed as the `validatorsCache` ARGUMENT, while the chain object's own live appState cache is the same set (25%), a fresh node's (25%) or a set of another size from every threshold class (50%); per registry: committee draws (steps 1..149, 253-255, explicit limits incl. n-1, n, n+1), certificates built from real secp256k1 signatures with exactly need-1 / need / need+1 distinct eligible voters plus operators (duplicates, same voter other flags, outsiders, non-eligible members, other round/step/parent/hash signed, flag mismatch, 5 byte-level forgeries, certificate-level other round/hash/step, other parent/block context, both sync paths), vote sets through the real AddVote + countVotes (equivocation, stale/future rounds, late votes; dedicated cases with discriminated/pooled committee members whose need-1 / need / need+1 eligible votes arrive over up to three 500 ms polling passes of the real loop) whose certificates go back through ValidateBlockCert; 1 case in 40: registry of <= 7 identities with EVERY subset of (eligible voters + a non-eligible member + an outsider) as a certificate; plus real-chain routes (chain.go): two/three real replicas over histories with status switches, delegations, kills and a validation ceremony end (resp. god-only mode with god hand-overs; resp. a node that applied a delegation live at a delegation-switch block, rolled back below it with the real Chain.ResetTo and follows a branch without the delegation); before every block the live (incrementally updated) validators cache of the proposing node is compared with a reloaded cache, the reference committee and the model, exact-quorum / quorum-1 certificates by real keys go through ValidateBlockCert, and windows of 2-5 blocks go through the real ValidateSubChain of a lagging replica with genuine certificates (must pass) and with the certificate of an IdentityUpdate block replaced by one of the validator set AFTER that block / an under-quorum one / none (must be refused); plus the table of the real committee-size / threshold / subtrahend functions over cnt <= N for the four consensus versions; distinct = distinct (registry, op); non-trivial = certificate with at least one signature or required <= 0"
 		maxCnt := 200000
 		c07table(c, maxCnt, thorough)
 		n := c.Scale(260, 12000)
@@ -1833,10 +1835,13 @@ func init() {
 		close(jobs)
 		wg.Wait()
 		// real-chain routes (global virtual clock: run one after the other, after the pool has drained)
-		for j, nch := 0, c.Scale(5, 60); j < nch; j++ {
-			ch := c07chain{Mode: []string{"switch", "god", "switch", "god", "switch"}[j%5], Seed: c.Seed*1000 + int64(j), Blocks: 48}
+		for j, nch := 0, c.Scale(7, 70); j < nch; j++ {
+			ch := c07chain{Mode: []string{"switch", "god", "rollback", "switch", "god", "rollback", "switch"}[j%7], Seed: c.Seed*1000 + int64(j), Blocks: 48}
 			if ch.Mode == "god" {
 				ch.Blocks = 16
+			}
+			if ch.Mode == "rollback" {
+				ch.Blocks = 5
 			}
 			cs := c07case{Chain: &ch}
 			out, f, _ := c07run(cs)
